@@ -282,6 +282,8 @@ int main(int argc, char **argv)
             long long ne = 0;
             for(size_t q = playStart; q < glog_.size(); ++q) if(glog_[q].k == 'e') ++ne;
             w.kv("ncalls", calls); w.kv("ne", ne); w.kv("atend", opn2_atEnd(dev)); w.kv("trunc", trunc);
+            // the synthesizer's state after the play (every MIDI channel of every port), on request
+            if(c.get("snap", 0) && !trunc) { w.key("s"); writeSnapshot(w, dev, *tap, so); }
         }
         else if(e == "PlayAudio")
         {
